@@ -694,6 +694,11 @@ def run():
     inst7 = P.gen_instance(rng, max_rows=7, min_rows=7)
     for sq in seqs:
         cases.append((takes_program(sq, rng.random() < 0.3), [inst7]))
+    # a group nested in a group (F45), by the generator
+    for _ in range(ck.n(12, 80) * (3 if broken else 1)):
+        pg = g.program(n_steps=2 + rng.randint(0, 2), force=["sort", "nested_group"])
+        inst = P.gen_instance(rng, max_rows=7, min_rows=5)
+        cases.append((pg, [inst, permuted(rng, inst)]))
     # one hand-built program per open finding the random streams seldom hit
     for _fid, pg, inst in E.directed_known(rng):
         inst = inst or P.gen_instance(rng, max_rows=7, min_rows=5)
